@@ -127,6 +127,7 @@ func checkC14(ctx *core.Ctx, rep *core.Report) {
 		}
 		rep.Sample(2, map[string]interface{}{"seed": st.Seed.Name, "path": st.Path})
 	})
+	regHistories(ctx, rep, "C14", map[string]bool{"listing": true}, regHistDepth(ctx))
 	if ctx.Shard == 0 {
 		c14WriteJSONAcrossKinds(rep) // last: it adds lints to this process's global registry
 	}
